@@ -21,6 +21,8 @@ CONSTANTS
   AllOrders = TRUE
   RestartIters = {1}
   MaxLeg = 9
+  FirstLegMax = 9
+  AllowArgB = {TRUE, FALSE}
 INVARIANT TypeOK
 INVARIANT NoError
 INVARIANT WeightOne
